@@ -216,6 +216,16 @@ MUTS = [
     ('Segments::area sums arc lengths', 'kurbo/src/bezpath.rs',
      'self.map(|seg| seg.signed_area()).sum()', 'self.map(|seg| seg.arclen(1e-9)).sum()',
      {'bezpath.rs::Segments<I>::area'}),
+    # the body of flatten's element loop (MoveTo/LineTo/QuadTo/ClosePath arms)
+    ('flatten forgets the current point after ClosePath (the pre-repair C05 behaviour)', 'kurbo/src/bezpath.rs',
+     '                last_pt = start_pt;\n                callback(PathEl::ClosePath);', '                last_pt = None;\n                callback(PathEl::ClosePath);',
+     {'bezpath.rs::flatten (loop body)'}),
+    ('flatten QuadTo arm: u = i / step', 'kurbo/src/bezpath.rs',
+     'let u = (i as f64) * step;', 'let u = (i as f64) / step;',
+     {'bezpath.rs::flatten (loop body)'}),
+    ("dash_impl's initial phase does not toggle is_active", 'kurbo/src/stroke.rs',
+     '        dash_remaining += dashes[dash_ix];\n        is_active = !is_active;', '        dash_remaining += dashes[dash_ix];\n        is_active = is_active;',
+     {'stroke.rs::dash_impl (loop body)'}),
     # a helper without a model counterpart: every user follows
     ('helper Rect::new swaps y0/y1 (all users of the helper follow)', 'kurbo/src/rect.rs',
      'Rect { x0, y0, x1, y1 }\n    }', 'Rect { x0, y0: y1, x1, y1: y0 }\n    }',
